@@ -119,6 +119,8 @@ struct Cx<'tcx> {
     files: HashMap<usize, String>,
     tys: HashMap<Ty<'tcx>, String>,
     paths: HashMap<DefId, String>,
+    cur_file: String,
+    cur_span: Span,
 }
 
 impl<'tcx> Cx<'tcx> {
@@ -126,18 +128,116 @@ impl<'tcx> Cx<'tcx> {
         if let Some(p) = self.paths.get(&d) {
             return p.clone();
         }
-        let p = self.tcx.def_path_str(d);
+        let mut p = self.tcx.def_path_str(d);
+        // Paths that rustc would print through an anonymous `const _: () = { extern crate serde as
+        // _serde; .. }` (derive output) are reprinted by their definition path.
+        if p.contains("_::_") {
+            p = rustc_middle::ty::print::with_no_visible_paths!(self.tcx.def_path_str(d));
+        }
         self.paths.insert(d, p.clone());
         p
+    }
+
+    /// Generic arguments of a call, `[T, U]`; lifetimes are erased in MIR and omitted.
+    fn gargs(&mut self, args: ty::GenericArgsRef<'tcx>) -> String {
+        let mut parts = Vec::new();
+        for a in args.iter() {
+            match a.kind() {
+                ty::GenericArgKind::Type(x) => parts.push(self.ty(x)),
+                ty::GenericArgKind::Const(c) => parts.push(c.to_string()),
+                ty::GenericArgKind::Lifetime(_) => {}
+            }
+        }
+        if parts.is_empty() { String::new() } else { format!("[{}]", parts.join(", ")) }
     }
 
     fn ty(&mut self, t: Ty<'tcx>) -> String {
         if let Some(p) = self.tys.get(&t) {
             return p.clone();
         }
-        let p = format!("{}", t);
+        let p = self.ty_build(t);
         self.tys.insert(t, p.clone());
         p
+    }
+
+    /// Type printer.  rustc's `Display` drops generic arguments that equal the parameter's
+    /// default, which would make `HashMap<K, V>` (RandomState) indistinguishable at a glance from
+    /// a custom-hasher map.  ADT arguments are therefore printed in full, except a trailing
+    /// defaulted allocator `std::alloc::Global` (pure noise on Vec/Box/Rc/...).  Kinds that are
+    /// not handled structurally fall back to `Display` (fully qualified paths).
+    fn ty_build(&mut self, t: Ty<'tcx>) -> String {
+        let tcx = self.tcx;
+        match *t.kind() {
+            ty::Adt(def, args) => {
+                let mut out = self.path(def.did());
+                let generics = tcx.generics_of(def.did());
+                let mut n = args.len();
+                while n > 0 {
+                    let is_global = match args[n - 1].as_type().map(|a| a.kind()) {
+                        Some(ty::Adt(d, a)) if a.is_empty() => self.path(d.did()) == "std::alloc::Global",
+                        _ => false,
+                    };
+                    let has_default = n - 1 >= generics.parent_count
+                        && generics
+                            .own_params
+                            .get(n - 1 - generics.parent_count)
+                            .is_some_and(|p| p.default_value(tcx).is_some());
+                    if is_global && has_default {
+                        n -= 1;
+                    } else {
+                        break;
+                    }
+                }
+                if n > 0 {
+                    out.push('<');
+                    for (i, a) in args.iter().take(n).enumerate() {
+                        if i > 0 {
+                            out.push_str(", ");
+                        }
+                        match a.kind() {
+                            ty::GenericArgKind::Type(x) => out.push_str(&self.ty(x)),
+                            ty::GenericArgKind::Lifetime(r) => {
+                                let rs = r.to_string();
+                                out.push_str(if rs.is_empty() { "'_" } else { &rs });
+                            }
+                            ty::GenericArgKind::Const(c) => out.push_str(&c.to_string()),
+                        }
+                    }
+                    out.push('>');
+                }
+                out
+            }
+            ty::Ref(r, inner, m) => {
+                let rs = r.to_string();
+                let mut out = String::from("&");
+                if !rs.is_empty() && rs != "'_" {
+                    out.push_str(&rs);
+                    out.push(' ');
+                }
+                if m.is_mut() {
+                    out.push_str("mut ");
+                }
+                out.push_str(&self.ty(inner));
+                out
+            }
+            ty::RawPtr(inner, m) => {
+                format!("*{} {}", if m.is_mut() { "mut" } else { "const" }, self.ty(inner))
+            }
+            ty::Slice(inner) => format!("[{}]", self.ty(inner)),
+            ty::Array(inner, len) => match len.try_to_target_usize(tcx) {
+                Some(n) => format!("[{}; {}]", self.ty(inner), n),
+                None => format!("[{}; {}]", self.ty(inner), len),
+            },
+            ty::Tuple(ts) if !ts.is_empty() => {
+                let parts: Vec<String> = ts.iter().map(|x| self.ty(x)).collect();
+                if parts.len() == 1 {
+                    format!("({},)", parts[0])
+                } else {
+                    format!("({})", parts.join(", "))
+                }
+            }
+            _ => format!("{}", t),
+        }
     }
 
     /// (file relative to the workspace root, line, from_expansion).  Expanded code is located at
@@ -177,13 +277,17 @@ impl<'tcx> Cx<'tcx> {
         }
     }
 
+    /// Location object.  `f` is omitted when it equals the enclosing function's file (the rule
+    /// engine defaults to that), `exp` is present only when true.  Dummy spans (compiler-made
+    /// blocks) are located at the enclosing body.
     fn jloc(&mut self, span: Span) -> J {
+        let span = if span.is_dummy() { self.cur_span } else { span };
         let (f, l, exp) = self.loc(span);
+        let mut o = if f == self.cur_file { obj! {"l": J::I(l as i128)} } else { obj! {"f": s(f), "l": J::I(l as i128)} };
         if exp {
-            obj! {"f": s(f), "l": J::I(l as i128), "exp": J::B(true)}
-        } else {
-            obj! {"f": s(f), "l": J::I(l as i128), "exp": J::B(false)}
+            o.push("exp", J::B(true));
         }
+        o
     }
 }
 
@@ -219,6 +323,26 @@ fn binop_str(op: BinOp) -> &'static str {
         Cmp => "cmp",
         Offset => "offset",
     }
+}
+
+/// `alloc123` ids differ between sessions (cold vs. incremental); keep the output reproducible.
+fn scrub_alloc_ids(t: String) -> String {
+    if !t.contains("alloc") {
+        return t;
+    }
+    let mut out = String::with_capacity(t.len());
+    let mut rest = t.as_str();
+    while let Some(i) = rest.find("alloc") {
+        out.push_str(&rest[..i + 5]);
+        rest = &rest[i + 5..];
+        let digits = rest.chars().take_while(|c| c.is_ascii_digit()).count();
+        if digits > 0 {
+            out.push('N');
+        }
+        rest = &rest[digits..];
+    }
+    out.push_str(rest);
+    out
 }
 
 fn clip(mut t: String, n: usize) -> String {
@@ -261,6 +385,13 @@ impl<'a, 'tcx> Bx<'a, 'tcx> {
         }
     }
 
+    /// Source-level name of the i-th captured place of a local closure (`var` or `var.field`).
+    fn capture_name(&self, d: DefId, i: usize) -> Option<String> {
+        let tcx = self.tcx();
+        let caps = tcx.closure_captures(d.as_local()?);
+        caps.get(i).map(|c| c.to_string(tcx))
+    }
+
     fn place(&mut self, p: Place<'tcx>) -> J {
         let tcx = self.tcx();
         let mut e = self.local_ref(p.local);
@@ -283,7 +414,15 @@ impl<'a, 'tcx> Bx<'a, 'tcx> {
                         }
                         _ => (f.as_usize().to_string(), String::new()),
                     };
-                    obj! {"k": s("mem"), "f": s(name), "rec": s(rec), "arrow": J::B(false), "b": e, "t": s(self.cx.ty(fty))}
+                    let cap = match pty.ty.kind() {
+                        ty::Closure(d, _) | ty::Coroutine(d, _) | ty::CoroutineClosure(d, _) => self.capture_name(*d, f.as_usize()),
+                        _ => None,
+                    };
+                    let mut m = obj! {"k": s("mem"), "f": s(name), "rec": s(rec), "arrow": J::B(false), "b": e, "t": s(self.cx.ty(fty))};
+                    if let Some(c) = cap {
+                        m.push("cap", s(c));
+                    }
+                    m
                 }
                 PlaceElem::Downcast(_, v) => {
                     let (name, rec) = self.variant_name(pty.ty, v);
@@ -340,7 +479,7 @@ impl<'a, 'tcx> Bx<'a, 'tcx> {
             ty::FnDef(d, args) => {
                 let mut r = obj! {"k": s("ref"), "dk": s("fn"), "name": s(self.cx.path(*d)), "id": J::I(0)};
                 if !args.is_empty() {
-                    r.push("targs", s(format!("{:?}", args)));
+                    r.push("targs", s(self.cx.gargs(args)));
                 }
                 return r;
             }
@@ -367,13 +506,27 @@ impl<'a, 'tcx> Bx<'a, 'tcx> {
             }
             _ => {}
         }
+        // pointer to a static (or function): name it instead of printing a per-session alloc id
+        if let Const::Val(ConstValue::Scalar(rustc_middle::mir::interpret::Scalar::Ptr(ptr, _)), _) = k {
+            let (prov, off) = ptr.into_raw_parts();
+            match tcx.try_get_global_alloc(prov.alloc_id()) {
+                Some(rustc_middle::mir::interpret::GlobalAlloc::Static(d)) if off.bytes() == 0 => {
+                    let st = obj! {"k": s("ref"), "dk": s("static"), "name": s(self.cx.path(d)), "id": J::I(0)};
+                    return obj! {"k": s("un"), "op": s("&"), "e": st, "mut": J::B(false), "t": s(self.cx.ty(t))};
+                }
+                Some(rustc_middle::mir::interpret::GlobalAlloc::Function { instance }) => {
+                    return obj! {"k": s("ref"), "dk": s("fn"), "name": s(self.cx.path(instance.def_id())), "id": J::I(0)};
+                }
+                _ => {}
+            }
+        }
         let text = if promoted {
             match k {
                 Const::Unevaluated(u, _) => format!("promoted[{}]", u.promoted.unwrap().as_usize()),
                 _ => unreachable!(),
             }
         } else {
-            clip(format!("{}", k), 200)
+            scrub_alloc_ids(clip(format!("{}", k), 200))
         };
         let mut r = obj! {"k": s("const"), "t": s(self.cx.ty(t)), "text": s(text)};
         if let Some(n) = cname {
@@ -470,9 +623,17 @@ impl<'a, 'tcx> Bx<'a, 'tcx> {
                     AggregateKind::RawPtr(..) => obj! {"k": s("agg"), "adt": s("rawptr")},
                 };
                 if fields.is_empty() {
+                    let cdef = match &**kind {
+                        AggregateKind::Closure(d, _) | AggregateKind::Coroutine(d, _) | AggregateKind::CoroutineClosure(d, _) => Some(*d),
+                        _ => None,
+                    };
                     for (i, o) in ops.iter_enumerated() {
                         let e = self.operand(o);
-                        fields.push(obj! {"f": s(i.as_usize().to_string()), "e": e});
+                        let mut fj = obj! {"f": s(i.as_usize().to_string()), "e": e};
+                        if let Some(c) = cdef.and_then(|d| self.capture_name(d, i.as_usize())) {
+                            fj.push("cap", s(c));
+                        }
+                        fields.push(fj);
                     }
                 }
                 head.push("fields", J::A(fields));
@@ -558,7 +719,7 @@ impl<'a, 'tcx> Bx<'a, 'tcx> {
                 Some(r) => self.cx.path(r),
                 None => tfn.clone(),
             };
-            let mut c = obj! {"k": s("call"), "fn": s(name), "targs": s(if gargs.is_empty() { String::new() } else { format!("{:?}", gargs) }), "a": J::A(a)};
+            let mut c = obj! {"k": s("call"), "fn": s(name), "targs": s(self.cx.gargs(gargs)), "a": J::A(a)};
             if resolved != Some(d) {
                 c.push("tfn", s(tfn));
             }
@@ -790,6 +951,9 @@ fn dump_fn<'tcx>(cx: &mut Cx<'tcx>, did: LocalDefId) -> Option<J> {
         cx.file_line(sp.hi(), false).1
     };
     let name = cx.path(did.to_def_id());
+    cx.cur_file = file.clone();
+    cx.cur_span = body.span;
+    let derived = body.span.from_expansion();
     let mut bx = Bx { cx, body, env, names };
     let mut params = Vec::new();
     let mut locals = Vec::new();
@@ -832,6 +996,7 @@ fn dump_fn<'tcx>(cx: &mut Cx<'tcx>, did: LocalDefId) -> Option<J> {
     Some(obj! {
         "name": s(name),
         "kind": s(kind_s),
+        "derived": J::B(derived),
         "file": s(file),
         "line": J::I(line as i128),
         "end": J::I(end as i128),
@@ -944,7 +1109,7 @@ fn dump_sig<'tcx>(cx: &mut Cx<'tcx>, did: LocalDefId) -> J {
 fn dump_crate<'tcx>(tcx: TyCtxt<'tcx>, out_dir: &str, is_bin: bool) {
     let cwd = std::env::current_dir().unwrap_or_default();
     let root = std::env::var("RSFACTS_ROOT").map(PathBuf::from).unwrap_or_else(|_| cwd.clone());
-    let mut cx = Cx { tcx, root, cwd, files: HashMap::new(), tys: HashMap::new(), paths: HashMap::new() };
+    let mut cx = Cx { tcx, root, cwd, files: HashMap::new(), tys: HashMap::new(), paths: HashMap::new(), cur_file: String::new(), cur_span: rustc_span::DUMMY_SP };
     let crate_name = tcx.crate_name(rustc_hir::def_id::LOCAL_CRATE).to_string();
 
     let mut functions = Vec::new();
